@@ -15,7 +15,7 @@ from vlib import core
 THEOREMS = ["Props.C07." + t for t in [
     "perm_into_map", "perm_into_map_needs_distinct_keys", "ns_add_comm", "std_imports_distinct",
     "perm_then_sort", "perm_then_sort_strings", "service_throws_sorts_by_dedup_key", "service_throws_perm",
-    "service_throws_bare_name_insufficient", "sorted_fields_sorts_by_id", "perm_any", "perm_filter", "perm_sum", "replacer_perm",
+    "service_throws_bare_name_insufficient", "sorted_fields_sorts_by_id", "perm_any", "perm_filter", "perm_sum", "feed_rename_order_sensitive", "render_loops_range_over_the_dfs_sequence", "replacer_perm",
     "insertion_keys_prefix_free", "insertion_replace_perm", "insertion_replace_needs_key_alphabet",
     "descriptor_bytes_perm", "file_descriptor_perm", "const_map_bytes_perm", "plugin_request_perm", "fastgo_imports_perm",
     "descriptor_bytes_key_only_sort_insufficient",
@@ -33,7 +33,8 @@ RULE = ("in-process cases (T: the template function ServiceThrows on scopes buil
         "3 wide variants with 8-entry maps (6 each at quick, 16 at thorough), and aimed programs on every seed: the same names (exceptions, "
         "struct, enum, typedef, consts, service) defined in 4 includes whose Go packages pairwise share their last element, used side by side, "
         "under -r with the default, slim and raw_struct templates, slim with helper options, reflection+field masks and fastgo:no_fmt (8 each), "
-        "and a plugin that patches the generated file with nested insertion points (12); one hash expected; a combo counts as distinct non-trivial when "
+        "a plugin that patches the generated file with nested insertion points (12), and 3 resp. 2 IDLs in different directories that map to one "
+        "output file (same base name, same go namespace, each reached by its own include chain) under -r go and -r fastgo (12 each); one hash expected; a combo counts as distinct non-trivial when "
         "thriftgo accepted it and it produced >=1 output file or plugin request; evaluations = in-process cases + thriftgo executions")
 
 
